@@ -60,7 +60,7 @@ func vMkWorld() *vWorld {
 	m.current = verifChoose("current", "A", "B", "C")
 	_, curListed := m.endpoints[m.current]
 	verifAssume(curListed)
-	m.future = verifChoose("future", "A", "B", "C", "")
+	vSetFuture(&m.future, verifChoose("future", "A", "B", "C", ""), m)
 	// live recovery timers: exactly the recovering listed endpoints have one, capturing their last change
 	for i := 0; i < vE; i++ {
 		e := w.eps[i]
@@ -187,7 +187,7 @@ func (w *vWorld) conv() bool {
 		}
 	}
 	// or a delayed switch to the top available endpoint is pending
-	if m.future == vName(top) && m.switchingDelay > 0 && v.status[v.cur] != unavailable {
+	if vFutureName(m.future) == vName(top) && m.switchingDelay > 0 && v.status[v.cur] != unavailable {
 		for i := 0; i < len(vTimers); i++ {
 			if vTimers[i].live() && vTimers[i].kind == 2 {
 				return true
@@ -390,4 +390,32 @@ func VerifH_mestep() {
 	verifAssert(w.conv(), "C14: convergence: current is not the top available endpoint and nothing pending will bring it there")
 	verifObserve("cur", uint64(v1.cur))
 	verifObserve("timers", uint64(len(vTimers)))
+}
+
+// The pending delayed-switch target, whatever representation the code under test gives it: the
+// endpoint's name (resolved when the timer fires) or a pointer to the endpoint object.  With a
+// pointer, the object may be one that an endpoint-list update has removed (or replaced by a new
+// object of the same name) since the switch was scheduled - such states are reachable then.
+func vSetFuture[T any](p *T, name string, m *multiEndpoint) {
+	switch q := any(p).(type) {
+	case *string:
+		*q = name
+	case **endpoint:
+		*q = m.endpoints[name]
+		if name != "" && verifBool("futureIsRemovedObject") {
+			*q = &endpoint{id: name, status: available, priority: verifInt("futureStalePrio")}
+		}
+	}
+}
+
+func vFutureName[T any](f T) string {
+	switch x := any(f).(type) {
+	case string:
+		return x
+	case *endpoint:
+		if x != nil {
+			return x.id
+		}
+	}
+	return ""
 }
